@@ -46,6 +46,10 @@ DESC["C07"] = dict(technique=CASES + " (spec/Traverse.tla, Gen_Traverse.tla, Che
    text="TraverseSpec (recursive) and IndexDescent (the statement's stepwise wording) are two TLA+ definitions that TLC proves equal on every generated (tree, path) pair; all trees of depth <= 3 / width <= 2-3 with nil slots, per-node index options, aliases and Conditions x all paths of length 0..3-5 over -1..width+1 (10^5-10^7 pairs) are replayed on the real Traverse, whose returned value is mapped to a structural address by object identity; random deeper trees and paths are validated by Check_Traverse.tla.",
    note="Exhaustive only within the stated shapes; result identity is established through Addr() of nested Stacks / Conditions and unique leaf texts assigned by the harness.")
 
+DESC["C19"] = dict(technique=CASES + " (spec/Defrag.tla: DefragSpec = the property, DefragAsBuilt = transcription used only to recognise the listed known finding)", design_ref="DESIGN.md section 4 C19",
+   text="Exhaustive: every nil / non-nil pattern of length 0..8 (quick) / 0..12 (thorough) x 4 scan limits x 4 index-option sets x nesting position, inside the property's domain; TLC checks the laws of DefragSpec and emits the expected tree; the real Defrag's resulting tree (raw slots through the verif hook) and Err() are compared. Deviations that equal the DefragAsBuilt prediction on an input of the listed class are the open known finding (KNOWN-FINDING, exit 0); anything else is a VIOLATION. Random longer patterns are classified by Check_Defrag.tla.",
+   note="The package's Defrag is defective and cannot be repaired under the constraints (an existing test pins a wrong outcome); the check therefore passes with a KNOWN-FINDING line and still reports any behaviour that differs from both the property and the listed as-built outcome.")
+
 def main():
     commits = subprocess.run(["git", "-C", "/repo", "log", "--format=%h %s", "--grep=^verif:"],
                              stdout=subprocess.PIPE, text=True).stdout.strip().splitlines()
